@@ -32,11 +32,16 @@ def _one_mtu(args):
         w.close()
     lens = lens_for(mp, mf) if all_lens is None else all_lens
     rnd = random.Random(seed * 7 + mtu)
-    for ln in lens:
+    for k_ln, ln in enumerate(lens):
         row = dict(mtu=mtu, len=ln, maxpayload=mp, maxfrag=mf, maxsize=ms, lens=[], cli=0, srv=0, maxdg=0, left=0, err="")
         for api in ("cli", "srv"):
-            w = ApiWorld(mtu=mtu)
+            # every second length: the MTU is configured while the connection objects already exist (the documented remedy for a path that drops large
+            # datagrams, and what an application does that configures after connect()): the limits in force are the ones of the last setMTU call
+            late = k_ln % 2 == 1
+            w = ApiWorld(mtu=None if late else mtu)
             try:
+                if late:
+                    w.C.Packet.setMTU(mtu)
                 payload = bytes(rnd.getrandbits(8) for _ in range(min(ln, 32))) + bytes([rnd.getrandbits(8)]) * max(0, ln - 32)
                 try:
                     if api == "cli":
